@@ -86,6 +86,9 @@ struct TwoFields {
 
 pub struct Containers;
 impl SubCheck for Containers {
+    fn fuzzable(&self) -> bool {
+        true
+    }
     type Case = ContainerCase;
     fn name(&self) -> &'static str {
         "hashable_containers"
@@ -314,6 +317,9 @@ fn shuffle_keep_flow_order(net: &RNet, how: u8) -> Vec<(usize, usize, u8)> {
 
 pub struct States;
 impl SubCheck for States {
+    fn fuzzable(&self) -> bool {
+        true
+    }
     type Case = StateCase;
     fn name(&self) -> &'static str {
         "actor_model_state_near_misses"
@@ -451,6 +457,9 @@ pub struct MiscCase {
 
 pub struct Misc;
 impl SubCheck for Misc {
+    fn fuzzable(&self) -> bool {
+        true
+    }
     type Case = MiscCase;
     fn name(&self) -> &'static str {
         "clocks_maps_networks_testers"
